@@ -329,6 +329,8 @@ func runC09(w *World, r *Report) {
 	r.Rule("C09.copy-cells-consistent", "the cells and the close counter shared by the copies of one stream are written under sync.Once / atomically and read behind them (shared with C08.copy-cell): copies are closed and read by different goroutines", 6)
 	copyCellChecks(w, r, "C09.copy-cells-consistent")
 
+	shareRule(w, r, "C09.task-published-after-its-result", "the executor records a node's panic in the task before it hands the task back to the run loop (one deferred function, or the hand-over registered first): the loop goroutine must not read err / output of a task that is still being written", 2, "C03", "C03.push-on-every-exit")
+
 	r.Rule("C09.reslice-append", "no append onto a re-slice (x[:k]) of a parameter slice or of a slice held in a field of a shared object, except the owner's delete-in-place stored back into the same field", 1)
 	ruleResliceAppend(w, r, "C09.reslice-append", "compose", "schema", "internal", "flow", "callbacks", "components", "utils")
 
